@@ -73,6 +73,8 @@ func (a *NilAnalysis) proveSite(fn *ssa.Function, s boundSite) (bool, string) {
 	if ok {
 		return ok, why
 	}
+	// phis among the operands that merge values of this trip (not loop-carried)
+	var phis []*ssa.Phi
 	for _, v := range []ssa.Value{s.idx, s.lo, s.hi} {
 		if v == nil {
 			continue
@@ -82,15 +84,51 @@ func (a *NilAnalysis) proveSite(fn *ssa.Function, s boundSite) (bool, string) {
 		if !isPhi || !isIntegerT(ph.Type()) {
 			continue
 		}
-		all := true
+		carried, dup := false, false
+		for i := range ph.Edges {
+			if ph.Block().Dominates(ph.Block().Preds[i]) { // loop-carried: the operand belongs to another trip
+				carried = true
+			}
+		}
+		for _, q := range phis {
+			if q == ph {
+				dup = true
+			}
+		}
+		if !carried && !dup {
+			phis = append(phis, ph)
+		}
+	}
+	casesOf := func(ph *ssa.Phi) []*phiCase {
+		var out []*phiCase
 		for i, e := range ph.Edges {
-			pred := ph.Block().Preds[i]
-			if ph.Block().Dominates(pred) { // loop-carried: the operand belongs to another trip
+			out = append(out, &phiCase{ph, e, ph.Block().Preds[i]})
+		}
+		return out
+	}
+	for _, ph := range phis {
+		all := true
+		for _, pc := range casesOf(ph) {
+			if ok2, _ := a.proveSiteIn(fn, s, pc); !ok2 {
 				all = false
 				break
 			}
-			if ok2, _ := a.proveSiteIn(fn, s, &phiCase{ph, e, pred}); !ok2 {
-				all = false
+		}
+		if all {
+			return true, ""
+		}
+	}
+	// two merged operands (low and high of a slice expression): every combination of their cases
+	if len(phis) == 2 {
+		all := true
+		for _, pc1 := range casesOf(phis[0]) {
+			for _, pc2 := range casesOf(phis[1]) {
+				if ok2, _ := a.proveSiteIn(fn, s, pc1, pc2); !ok2 {
+					all = false
+					break
+				}
+			}
+			if !all {
 				break
 			}
 		}
@@ -101,11 +139,14 @@ func (a *NilAnalysis) proveSite(fn *ssa.Function, s boundSite) (bool, string) {
 	return ok, why
 }
 
-func (a *NilAnalysis) proveSiteIn(fn *ssa.Function, s boundSite, pc *phiCase) (bool, string) {
-	a.cur, a.curFn, a.curCase = s.ins, fn, pc
-	defer func() { a.cur, a.curFn, a.curCase = nil, nil, nil }()
+func (a *NilAnalysis) proveSiteIn(fn *ssa.Function, s boundSite, pc *phiCase, more ...*phiCase) (bool, string) {
+	a.cur, a.curFn, a.curCase, a.curCases = s.ins, fn, pc, more
+	defer func() { a.cur, a.curFn, a.curCase, a.curCases = nil, nil, nil, nil }()
 	g := a.newGraph(fn, s.ins)
-	if pc != nil {
+	for _, pc := range append([]*phiCase{pc}, more...) {
+		if pc == nil {
+			continue
+		}
 		// facts on the edge pred -> phi block (facts about registers never expire)
 		if out, ok := a.out[pc.pred]; ok {
 			f := out.clone()
